@@ -436,6 +436,8 @@ class TransferFrame:
                 raise UslpTruncatedFrameNotAllowed
             if not isinstance(frame_properties, VarFrameProperties):
                 raise ValueError
+            if len(raw_frame) < frame_properties.truncated_frame_len:
+                raise UslpInvalidRawPacketOrFrameLen
             frame.header = TruncatedPrimaryHeader.unpack(raw_packet=raw_frame)
         else:
             frame.header = PrimaryHeader.unpack(raw_packet=raw_frame)
